@@ -20,6 +20,8 @@ RULES = {
              "that tensor, recording (pre, post, max); the output is flattened iff self.flatten; the block reports its first "
              "pre-activation and its final output",
 }
+RULES["R11.3"] += " | decided on the E6 effect summary of Feedback::forward: per layer variant every live path records F.0 / F.1 / None|Some(F.2) of <payload>::forward(payload, x), asserts x.shape against payload.inputs first, and on paths that combine nothing into x, x is activated.last() at loop entry; the final output is popped and pushed back flattened iff self.flatten; the block reports (unactivated[0], activated[last], ..)"
+RULES["R11.1"] += " | per-source / joint-mean: Add, Subtract, Multiply apply their primitive inside the walk over the listed sources; Mean applies mean_inplace once, outside that walk, to the list it fills; a Mean written as add + division must divide by the number of tensors combined"
 ASSUMPTIONS = ["the computed values are not decided; each rule is a necessary condition of a mechanism the property names"]
 TRUSTED = ["rustc nightly front end", "driver/src/main.rs", "sa/e1.py", "sa/e4.py", "sa/extract.py (for the primitives)"]
 
